@@ -453,6 +453,9 @@ func (e *Enc) epochGet(ep *Epoch, key string, s Sort) T {
 		// ghost call flags start out false (and are carried across total havocs by havocAll)
 		return False
 	}
+	if strings.HasPrefix(key, "!ncalls|") && ep.parts == nil {
+		return IntLit64(IntS, 0)
+	}
 	var t T
 	if ep.parts == nil {
 		qd := e.quantDepth
@@ -592,6 +595,16 @@ func (e *Enc) storeAt(st *State, p Val, v Val) {
 		}
 		st.H[key] = e.define(nv, "H")
 		e.markWrite(key)
+		if e.writes != nil && space != "G" {
+			// remember which object was written (used to frame loop havocs)
+			if e.writeRefs == nil {
+				e.writeRefs = map[string]map[string]bool{}
+			}
+			if e.writeRefs[key] == nil {
+				e.writeRefs[key] = map[string]bool{}
+			}
+			e.writeRefs[key][p.L[0].E] = true
+		}
 	}
 }
 
